@@ -321,7 +321,8 @@ def payload_rule(ctx, report, rule="PAYLOAD"):
     f = ctx.method("append_rlp_content")
     flag = None
     if f is None:
-        report.violate(rule, "append_rlp_content", "anchor Enr::append_rlp_content not found", config=cfg)
+        # no such helper in this tree: the flattened forms of rlp_content()/encode() are checked instead (framed_flat)
+        report.note("Enr::append_rlp_content does not exist in %s: payload layout decided on the flattened rlp_content()/encode()" % cfg)
     else:
         report.analysed_fns.add(f.path)
         ok, problems, em, flag = emit.check_content_stream(ctx, f, 2, True, lambda e: e.k == "param" and e.a[0] == 1, "flag", "append_rlp_content")
@@ -344,8 +345,10 @@ def framed_by_append(ctx, g, want_sig, flag_param, out_param):
     an = ctx.an(g)
     problems = []
     calls = [(b, t) for b, t in g.calls() if t.callee and t.callee.target() == "Enr::<K>::append_rlp_content"]
-    if len(calls) != 1:
-        return ["calls append_rlp_content %d times" % len(calls)]
+    import os
+    if len(calls) != 1 or os.environ.get("ENR_FORCE_FLAT"):
+        # not cut into helpers the way this tree was: decide on the flattened body
+        return framed_flat(ctx, g, want_sig, out_param)
     b, t = calls[0]
     selfarg = strip(an.operand_expr(t.args[0], b.idx, len(b.stmts)))
     if not (selfarg.k == "param" and selfarg.a[0] == 1):
@@ -380,6 +383,43 @@ def framed_by_append(ctx, g, want_sig, flag_param, out_param):
         problems += emit.check_framed(ctx, g, stream, out, False)
     else:
         problems += emit.check_framed(ctx, g, stream, out_param, True)
+    return problems
+
+
+def framed_flat(ctx, g, want_sig, out_param):
+    """the same verdict as framed_by_append, on g with every local callee
+    spliced in: `out` receives Header{list, len(S)} then S, where S is a fresh
+    buffer that receives exactly [signature] seq (key raw-value)* of self"""
+    fg = ctx.flat(g)
+    an = ctx.an(fg)
+    problems = []
+    if out_param is None:
+        rets = [r for r in an.defs().get(0, []) if r[0] in an.cfg.succ]
+        out = None
+        if len(rets) == 1 and getattr(rets[0][2], "rv", None) is not None and rets[0][2].rv.kind == "use":
+            out = trace_local(an, rets[0][2].rv.ops[0])
+        if out is None:
+            return ["does not return a local buffer"]
+        odef = shapes.def_expr(an, out)
+        if not (odef is not None and odef.k == "call" and odef.a[0].name in ("new", "with_capacity")):
+            problems.append("output buffer is not fresh")
+        out_root, out_via = out, False
+    else:
+        out_root, out_via = out_param, True
+    em = emit.sink_emissions(ctx, fg, out_root, out_via)
+    raws = [e for e in em if e.kind == "raw"]
+    if len(raws) != 1 or raws[0].term is None:
+        return problems + ["output receives %s, expected a list header then one content stream" % em]
+    tgt = an.operand_target(raws[0].term.args[1])
+    if tgt is None or tgt[2] is not False or tgt[1] not in ([], ["[]"]):
+        return problems + ["the framed stream is not a local buffer"]
+    stream = shapes.root_local(an, tgt[0])
+    sdef = shapes.def_expr(an, stream)
+    if not (sdef is not None and sdef.k == "call" and sdef.a[0].name in ("new", "with_capacity")):
+        problems.append("stream buffer is not fresh")
+    ok, ps, em2, _ = emit.check_content_stream(ctx, fg, stream, False, lambda e: e.k == "param" and e.a[0] == 1, "always" if want_sig else "never", g.name)
+    problems += ps
+    problems += emit.check_framed(ctx, fg, stream, out_root, out_via)
     return problems
 
 
@@ -637,19 +677,15 @@ def entry_rule(ctx, report):
     for f in ds:
         report.analysed_fns.add(f.path)
         an = ctx.an(f)
-        oks = 0
-        bad = []
-        for bb, idx, e, node in ret_exprs(an):
-            es = strip(e)
-            if es.k == "call" and es.a[0].name == "from_residual":
+        # every result that can be Ok is from_str's own result (up to error conversion); plain errors are free
+        from kernel import result_passthrough
+        rest = []
+        for r in ret_exprs(an):
+            es = strip(r[2])
+            if (es.k == "call" and es.a[0].name == "from_residual") or (es.k == "agg" and es.a[0].endswith("Result::Err")):
                 continue
-            cur = es
-            if cur.k == "call" and cur.a[0].name in ("map_err", "map") and cur.a[1]:
-                cur = strip(cur.a[1][0])
-            if cur.k == "call" and cur.a[0].name == "from_str" and cur.a[0].self_ty and cur.a[0].self_ty.get("adt") == "Enr":
-                oks += 1
-            else:
-                bad.append(short(e, 200))
+            rest.append(r)
+        oks, bad = result_passthrough(an, rest, lambda c: c.a[0].name == "from_str" and bool(c.a[0].self_ty) and c.a[0].self_ty.get("adt") == "Enr")
         report.check("ENTRY", "deserialize", oks >= 1 and not bad, "Deserialize returns what from_str returned", "Deserialize can produce a record that did not go through from_str: %s" % bad, fn=f.path, sp=f.span, config=cfg)
     # constructor census
     sites = []
